@@ -162,12 +162,16 @@ out:
 static void dropname_case(const char *sig)
 {
   size_t L = NLEN[li];
-  char dir[400], dd[500], path[900];
+  char dir[400], vdir[400], dd[500], vdd[500], path[900], vpath[900], mainp[500];
   snprintf(dir, sizeof dir, "%s/n", mc_work); mkdir(dir, 0755);
+  snprintf(vdir, sizeof vdir, "%s/nv", mc_work); mkdir(vdir, 0755);
   snprintf(dd, sizeof dd, "%s/cfg.conf.d", dir); mkdir(dd, 0755);
+  snprintf(vdd, sizeof vdd, "%s/cfg.conf.d", vdir); mkdir(vdd, 0755);
   char *name = pattern(L, 3); memcpy(name + L - 5, ".conf", 5);
   snprintf(path, sizeof path, "%s/%s", dd, name);
-  mc_write_file(path, "longname=1\n", 11);
+  snprintf(vpath, sizeof vpath, "%s/%s", vdd, name);
+  snprintf(mainp, sizeof mainp, "%s/cfg.conf", vdir);
+  mc_write_file(path, "longname=1\nk=local\n", 19);
   econf_file *kf = NULL; econf_file **hist = NULL; size_t hn = 0;
   econf_err rc = econf_readDirs(&kf, "/nonexistent-verif-c14", dir, "cfg", "conf", "=", "#");
   char *v = NULL;
@@ -179,8 +183,28 @@ static void dropname_case(const char *sig)
   else { char *p = econf_getPath(hist[0]); expect_str("history member path", p, path, sig); free(p); }
   if (hist) { for (size_t i = 0; i < hn; i++) econf_freeFile(hist[i]); free(hist); }
   if (kf) econf_freeFile(kf);
-  unlink(path); free(name);
-  mc_st->libcalls += 4;
+  /* the whole name takes part in the same-name rule: a vendor drop-in of the same long name is ignored, one whose name
+   * differs only in the last byte before the suffix is applied (a main file exists, so the recorded finding D6 is not involved) */
+  mc_write_file(mainp, "main=1\n", 7);
+  mc_write_file(vpath, "vendoronly=1\nk=vendor\n", 22);
+  char *other = strdup(name); other[L - 6] = other[L - 6] == 'z' ? 'y' : 'z';
+  char opath[900]; snprintf(opath, sizeof opath, "%s/%s", vdd, other);
+  mc_write_file(opath, "othername=1\n", 12);
+  kf = NULL;
+  rc = econf_readDirs(&kf, vdir, dir, "cfg", "conf", "=", "#");
+  if (rc || !kf) mc_fail(sig, "two-layer read with %zu-byte drop-in names failed: %d; %s", L, (int)rc, sig);
+  else {
+    v = NULL;
+    if (econf_getStringValue(kf, NULL, "vendoronly", &v) != ECONF_NOKEY) mc_fail(sig, "a vendor drop-in is applied although the local layer has a drop-in with the same %zu-byte name; %s", L, sig);
+    free(v); v = NULL;
+    if (econf_getStringValue(kf, NULL, "k", &v) || !v || strcmp(v, "local")) mc_fail(sig, "k=%s, expected the local drop-in's value; %s", v ? v : "<none>", sig);
+    free(v); v = NULL;
+    if (econf_getStringValue(kf, NULL, "othername", &v) || !v) mc_fail(sig, "a vendor drop-in whose %zu-byte name differs in one byte from a local one was not applied; %s", L, sig);
+    free(v);
+    econf_freeFile(kf);
+  }
+  unlink(path); unlink(vpath); unlink(opath); unlink(mainp); free(name); free(other);
+  mc_st->libcalls += 6;
 }
 
 static void path_case(const char *sig)
